@@ -47,6 +47,7 @@ type FuncUnit struct {
 }
 
 type Model struct {
+	kindConsts map[int64]ast.Expr
 	L    *Loaded
 	Info *types.Info
 	Pkg  *types.Package
